@@ -1,0 +1,103 @@
+//go:build verif
+
+// Contracts for the verif build tag: //@ comment blocks read by /verif/gocv.
+
+package merger
+
+import (
+	"github.com/vektah/gqlparser/v2/ast"
+)
+
+// TName: the innermost type name of an ast.Type (what (*ast.Type).Name returns).
+func TName(t *ast.Type) string { panic("ghost") }
+
+//@ assume-nonnil-elems *ast.FieldDefinition
+//@ assume-nonnil-elems *ast.ArgumentDefinition
+//@ assume-nonnil-field ast.FieldDefinition.Type
+//@ assume-nonnil-field ast.ArgumentDefinition.Type
+
+//@ extern github.com/vektah/gqlparser/v2/ast (*Type).Name
+//@ ensures result == TName(t)
+//@ modifies fresh
+//@ end
+
+//@ extern github.com/buildbuildio/pebbles/common IsBuiltinName
+//@ ensures result == hasprefix(s, "__")
+//@ modifies fresh
+//@ end
+
+//@ extern github.com/buildbuildio/pebbles/common IsNodeInterfaceName
+//@ ensures result == (s == "Node")
+//@ modifies fresh
+//@ end
+
+//@ define wfTM(t TypeURLMap) bool = forallT(k, string, has(t, k) ==> t[k] != nil && t[k].Fields != nil) && forallT(k1, string, forallT(k2, string, has(t, k1) && has(t, k2) && k1 != k2 ==> t[k1] != t[k2] && t[k1].Fields != t[k2].Fields))
+//@ define routed(t TypeURLMap, ty string, f string) bool = has(t, ty) && has(t[ty].Fields, f)
+//@ define route(t TypeURLMap, ty string, f string) string = t[ty].Fields[f]
+//@ define nodeEntry(f *ast.FieldDefinition) bool = f.Name == "node" && len(f.Arguments) == 1 && f.Arguments[0].Name == "id" && TName(f.Arguments[0].Type) == "ID" && f.Arguments[0].Type.NonNull && TName(f.Type) == "Node" && !f.Type.NonNull
+
+//@ func isNodeField
+//@ props C04 C03 C05
+//@ requires f != nil
+//@ ensures[spec] result == nodeEntry(f)
+//@ modifies fresh
+//@ end
+
+//@ func isIDType
+//@ props C04
+//@ requires t != nil
+//@ ensures[spec] result == (TName(t) == "ID" && t.NonNull)
+//@ modifies fresh
+//@ end
+
+//@ func isNonNullableTypeNamed
+//@ props C04
+//@ requires t != nil
+//@ ensures[spec] result == (TName(t) == typename && t.NonNull)
+//@ modifies fresh
+//@ end
+
+//@ func isNullableTypeNamed
+//@ props C04
+//@ requires t != nil
+//@ ensures[spec] result == (TName(t) == typename && !t.NonNull)
+//@ modifies fresh
+//@ end
+
+//@ func (TypeURLMap).Set
+//@ props C04
+//@ requires t != nil && wfTM(t)
+//@ ensures[wf] wfTM(t)
+//@ ensures[set] fieldname != "id" ==> routed(t, typename, fieldname) && route(t, typename, fieldname) == url
+//@ ensures[frame] forallT(ty, string, forallT(f, string, (ty != typename || f != fieldname || fieldname == "id") ==> routed(t, ty, f) == old(routed(t, ty, f)) && (routed(t, ty, f) ==> route(t, ty, f) == old(route(t, ty, f)))))
+//@ ensures[flags] forallT(ty, string, has(t, ty) ==> (old(has(t, ty)) && t[ty].IsImplementsNode == old(t[ty].IsImplementsNode)) || (!old(has(t, ty)) && !t[ty].IsImplementsNode))
+//@ ensures[types] forallT(ty, string, old(has(t, ty)) ==> has(t, ty))
+//@ modifies t[*], entries(map[string]string), fresh
+//@ end
+
+//@ func (TypeURLMap).SetTypeIsImplementsNode
+//@ props C04
+//@ requires t != nil && wfTM(t)
+//@ ensures[wf] wfTM(t)
+//@ ensures[flag] has(t, typename) && t[typename].IsImplementsNode
+//@ ensures[frame] forallT(ty, string, forallT(f, string, routed(t, ty, f) == old(routed(t, ty, f)) && (routed(t, ty, f) ==> route(t, ty, f) == old(route(t, ty, f)))))
+//@ ensures[flags] forallT(ty, string, ty != typename && has(t, ty) ==> old(has(t, ty)) && t[ty].IsImplementsNode == old(t[ty].IsImplementsNode))
+//@ ensures[types] forallT(ty, string, old(has(t, ty)) ==> has(t, ty))
+//@ modifies t[*], all(TypeProps.IsImplementsNode), fresh
+//@ end
+
+//@ func (TypeURLMap).Get
+//@ props C04
+//@ requires wfTM(t)
+//@ ensures[ok] ok == routed(t, typename, fieldname)
+//@ ensures[res] ok ==> res == route(t, typename, fieldname)
+//@ modifies fresh
+//@ end
+
+//@ func (TypeURLMap).GetTypeIsImplementsNode
+//@ props C04
+//@ requires wfTM(t)
+//@ ensures[ok] ok == has(t, typename)
+//@ ensures[res] ok ==> res == t[typename].IsImplementsNode
+//@ modifies fresh
+//@ end
